@@ -17,6 +17,30 @@ def expected_fixed(case, fix_first):
     return ff
 
 
+@contextlib.contextmanager
+def debug_logging():
+    """Run a block with the library's loggers at DEBUG level (records swallowed by a NullHandler): the application's logging
+    configuration must not change any result."""
+    import logging
+
+    names = ["graphslam"] + [n for n in list(logging.root.manager.loggerDict) if n.startswith("graphslam.")]
+    saved = []
+    handler = logging.NullHandler()
+    for n in names:
+        lg = logging.getLogger(n)
+        saved.append((lg, lg.level, lg.propagate))
+        lg.setLevel(logging.DEBUG)
+        lg.propagate = False
+        lg.addHandler(handler)
+    try:
+        yield
+    finally:
+        for lg, lvl, prop in saved:
+            lg.removeHandler(handler)
+            lg.setLevel(lvl)
+            lg.propagate = prop
+
+
 def optimize_quiet(graph, **kw):
     """graph.optimize(...) with stdout captured; returns (result, captured_text)."""
     buf = io.StringIO()
